@@ -173,7 +173,7 @@ class Router(frappy.protocol.dispatcher.Dispatcher):
 
     def handle_read(self, conn, specifier, data):
         module = specifier.split(':')[0]
-        if module in self._modules:
+        if module in self.secnode.modules:
             return super().handle_read(conn, specifier, data)
         node = self.node_by_module[module]
         if node.online:
@@ -182,12 +182,12 @@ class Router(frappy.protocol.dispatcher.Dispatcher):
 
     def handle_change(self, conn, specifier, data):
         module = specifier.split(':')[0]
-        if module in self._modules:
+        if module in self.secnode.modules:
             return super().handle_change(conn, specifier, data)
         return self.node_by_module[module].request(WRITEREQUEST, specifier, data)
 
     def handle_do(self, conn, specifier, data):
         module = specifier.split(':')[0]
-        if module in self._modules:
+        if module in self.secnode.modules:
             return super().handle_do(conn, specifier, data)
         return self.node_by_module[module].request(COMMANDREQUEST, specifier, data)
